@@ -189,6 +189,21 @@ add('C19', 'proof', 'Lean 4 theorems about a model of the CLI decision logic (sp
     'seed, plus real subprocesses for the four output situations and malformed arguments.',
     TB + 'click / literal_eval / OS / filesystem behaviour is trusted; CLI==API is explored (differential), not proved.')
 
+add('C06', 'proof', 'Lean 4 theorems about a stream-threaded run model and an LRU memo-table model + twin-generator stream correspondence and fresh-process history differential',
+    'Proved: a seeded run is a function of (arguments, consumed stream prefix) only; exactly n_run*T*(n + [q]*m) uniforms are '
+    'consumed with the stated layout; runs under two limit settings are prefixes of one another (a longer run extends a '
+    'shorter one); the aggregate refines the C04 run model; a memo table with a sufficient key and unmutated values is '
+    'transparent under any history and any eviction capacity (with concrete counterexamples when the key is insufficient or a '
+    'value is mutated) — 12 theorems. Tied to the code by predicting every step error / flip / outcome of real app.run / '
+    'run_ftp from a twin numpy generator and checking the generator state afterwards, and by comparing the memo model with '
+    'CPython functools.lru_cache. That the 116 real caches have sufficient keys and unmutated values is NOT a theorem: it is '
+    'explored by a history differential — random interleavings of decode / run calls on shared objects across all families, '
+    'each call compared with the same call on fresh objects in a fresh interpreter under a different PYTHONHASHSEED, with '
+    'caller arrays and code matrices hashed around every call. Components the property excludes (stp masks, the Y decoder\'s '
+    'tie coin, the file model\'s cursor) are pinned or excluded.',
+    TB + 'History independence of the real caches is explored (metamorphic differential whose oracle is the implementation '
+    'in a fresh process), not proved; PCG64 and numpy choice consumption as in C17.')
+
 NOT_YET = {}
 
 
